@@ -156,7 +156,14 @@ def main(argv=None):
         if time.time() - last[0] > 20:
             last[0] = time.time()
             print('  ... %d/%d tasks' % (d, n), flush=True)
-    res = pool.run([('props.' + a.prop, t.get('fn', 'run_task'), t) for t in tasks], prog)
+    stop = None
+    if os.environ.get('VERIF_STOP_FIRST') == '1':
+        # mutation-sweep mode only (never used by a registered command): stop dispatching tasks after the first confirmed, unlisted violation
+        kn = [k['match'] for k in load_known() if k.get('property') == a.prop and k.get('match')]
+
+        def stop(r):
+            return bool(r) and r[0] == 'ok' and any(o.get('status') == 'sat' and o.get('confirmed') and not any(m in o['name'] for m in kn) for sc in r[1] for o in sc['results'])
+    res = pool.run([('props.' + a.prop, t.get('fn', 'run_task'), t) for t in tasks], prog, stop)
     # ---------------------------------------------------------------- aggregate
     obs = list(CRASHES)
     scen = 0
@@ -165,6 +172,8 @@ def main(argv=None):
     errors = []
     paths = 0
     for t, r in zip(tasks, res):
+        if r is None and stop is not None:
+            continue
         if r is None or r[0] == 'timeout':
             obs.append({'name': t['name'] + ' :: (task)', 'kind': 'task', 'status': 'unknown', 'detail': 'task exceeded hard timeout %ds' % hard})
             continue
